@@ -85,6 +85,7 @@ def run_demo(src_dir, agent_wt):
     lines = [re.sub(r';\s*echo\s+"?exit=\$\?"?', '', re.sub(r'\s{2,}#.*$', '', l)) for l in lines]   # the exit status itself is what is judged
     cmd = ' && '.join(lines)
     cmd = cmd.replace(agent_wt, WT)
+    cmd = re.sub(r'<[A-Za-z_ -]*build[A-Za-z_ -]*>', WT + '/_build', cmd, flags=re.I)
     cmd = re.sub(r'<[A-Za-z_ -]*(?:repo|root|worktree|wt|checkout)[A-Za-z_ -]*>', WT, cmd, flags=re.I)
     cmd = cmd.replace(os.path.abspath(src_dir), work)
     env = dict(os.environ, ROOT=WT, WT=WT, WORKTREE=WT)
